@@ -34,8 +34,9 @@ OPNAME = {("rb", "a"): "Add", ("rb", "d"): "Delete", ("rb", "f"): "Find", ("rb",
 class Hist:
     """Generator state of one history: the live equivalence classes (sorted) and the key stored for each."""
 
-    def __init__(self, r, cont, cmpn, max_size, nops, ins_pat, del_pat, big=False):
+    def __init__(self, r, cont, cmpn, max_size, nops, ins_pat, del_pat, big=False, sparse=False):
         self.r, self.cont, self.cmpn = r, cont, cmpn
+        self.sparse, self.obs, self.quiet, self.obs_next = sparse, [], False, False
         self.max_size, self.nops, self.ins_pat, self.del_pat, self.big = max_size, nops, ins_pat, del_pat, big
         self.live = []
         self.hi_next, self.lo_next = 1, 0
@@ -115,6 +116,33 @@ class Hist:
             s += ",%d" % self.r.randint(0, 999)
         self.ops.append(s)
         self.kinds[kind] = self.kinds.get(kind, 0) + 1
+        if self.sparse:      # observation bit of this op: runs of size-neutral mutations stay unobserved
+            bit = "0" if self.quiet else "1" if self.obs_next else ("1" if self.r.random() < 1 / 3 else "0")
+            if not self.quiet:
+                self.obs_next = False
+            self.obs.append(bit)
+
+    def const_run(self):
+        """2-5 unobserved mutations that leave the size where it was (Delete-then-Add / Delete-then-Put pairs,
+        optionally a value update), followed by an observed op: a cache refreshed only 'when the size changed'
+        or 'when somebody looks' is stale at that observation."""
+        r, cont = self.r, self.cont
+        self.quiet = True
+        for _ in range(r.choice([1, 1, 2])):
+            cl = self.present()
+            self.live.remove(cl)
+            self.emit("d", cl, "sparse_delete")
+            if r.random() < 0.4:
+                back = cl                       # the same key (or, by-half, possibly its equal twin) comes back
+            else:
+                back = self.fresh()
+            bisect.insort(self.live, back)
+            self.emit({"rb": "a", "tm": "p", "ts": "a"}[cont], back, "sparse_insert", cont != "ts")
+            self.mutations += 2
+        if cont != "ts" and r.random() < 0.5:
+            self.emit({"rb": "s", "tm": "p"}[cont], r.choice(self.live), "sparse_value_update", True)
+        self.quiet = False
+        self.obs_next = True
 
     def step(self, i):
         r, cont = self.r, self.cont
@@ -178,8 +206,16 @@ class Hist:
 
     def build(self):
         for i in range(self.nops):
-            self.step(i)
+            if self.sparse and len(self.live) >= 2 and self.r.random() < 0.12:
+                self.const_run()
+            else:
+                self.step(i)
+        if self.sparse and self.obs:
+            self.obs[-1] = "1"
         return self
+
+    def header(self):
+        return "m:" + "".join(self.obs) if self.sparse else str(stride_for(self.max_size))
 
 
 def stride_for(size):
@@ -216,6 +252,43 @@ def gen_histories(c, tier):
             h.cls = cls
             out.append(("%s %s %d %s" % (cont, cmpn, stride_for(size), " ".join(h.ops)), h))
     return out
+
+
+def gen_sparse(c, tier):
+    """Sparse-observation histories: the full-state observers (KeyValues/Keys/Values/Len/Size and the
+    white-box dump) run only after ~1/3 of the ops and never inside the size-neutral runs of const_run();
+    each op's own return value and comparator-call count are still compared at every step."""
+    r = random.Random(c.seed * 104729 + 71)
+    out = []
+    for j in range(240 if tier == "quick" else 6000):
+        cont = CONTS[j % 3]
+        size = r.randint(2, 40)
+        h = Hist(r, cont, r.choice(CMPS), size, r.randint(10, 90), r.choice(INS_PATTERNS), r.choice(DEL_PATTERNS),
+                 False, sparse=True).build()
+        h.cls = "sparse"
+        out.append(("%s %s %s %s" % (cont, h.cmpn, h.header(), " ".join(h.ops)), h))
+    return out
+
+
+def case_items(ln):
+    """case line -> (container, comparator, [(op, observed bit)]) whatever the header form."""
+    f = ln.split()
+    ops = f[3:]
+    if f[2].startswith("m:"):
+        bits = f[2][2:].ljust(len(ops), "0")
+    else:
+        st = max(1, int(f[2]))
+        bits = "".join("1" if ((i + 1) % st == 0 or i == len(ops) - 1) else "0" for i in range(len(ops)))
+    return f[0], f[1], list(zip(ops, bits))
+
+
+def line_of(cont, cmpn, items):
+    """the case line that replays these (op, bit) items with exactly the same observation pattern"""
+    return "%s %s m:%s %s" % (cont, cmpn, "".join(b for _, b in items), " ".join(o for o, _ in items))
+
+
+def compact_items(items, cmpn):
+    return list(zip(compact_keys([o for o, _ in items], cmpn), [b for _, b in items]))
 
 
 # --------------------------------------------------------------------------- running
@@ -585,7 +658,7 @@ def run(pid, tier, on_disagreement, fields, walk_all=False):
         c.report("build", "harness does not build against the repository", {"kind": "build", "log": log[-3000:]},
                  found_input=False)
         return c
-    hs = gen_histories(c, tier)
+    hs = gen_histories(c, tier) + gen_sparse(c, tier)
     cases = [ln for ln, _ in hs]
     dist = {"container": {}, "comparator": {}, "insert_order": {}, "delete_order": {}, "op_kinds": {}, "class": {},
             "peak_size_max": 0}
